@@ -61,6 +61,7 @@ type scObs struct {
 	Hex     string                   `json:"hex,omitempty"`
 	EOF     bool                     `json:"eof,omitempty"`
 	Timeout bool                     `json:"timeout,omitempty"`
+	Ms      int                      `json:"ms,omitempty"`
 	Err     string                   `json:"err,omitempty"`
 	Replies []string                 `json:"replies,omitempty"`
 	Done    bool                     `json:"done,omitempty"`
@@ -138,6 +139,7 @@ func (s *sclient) recv(st scStep) scObs {
 		if done || eof || time.Since(start) >= timeout {
 			o.Hex = hex.EncodeToString(s.buf)
 			s.buf = nil
+			o.Ms = int(time.Since(start) / time.Millisecond)
 			o.EOF = eof
 			o.Timeout = !done && !eof
 			s.mu.Unlock()
@@ -275,6 +277,29 @@ func runScript(m *memListener, sc scScenario, concurrent bool) scResult {
 				o.Replies = append(o.Replies, hex.EncodeToString(r))
 			}
 			res.Obs = append(res.Obs, o)
+		case "udpburst":
+			// Ms datagrams (the given payloads round-robin) delivered at once from distinct source ports
+			lh, lp := parseHostPort(st.Laddr)
+			rh, rp := parseHostPort(st.Raddr)
+			raddrs[rh] = true
+			var payloads [][]byte
+			for _, h := range strings.Split(st.Hex, ",") {
+				b, _ := hex.DecodeString(h)
+				payloads = append(payloads, b)
+			}
+			var bw sync.WaitGroup
+			for i := 0; i < st.Ms; i++ {
+				bw.Add(1)
+				go func(i int) {
+					defer bw.Done()
+					// every datagram from its own source address (rate limiters work per address)
+					ip := net.ParseIP(rh).To4()
+					src := &net.UDPAddr{IP: net.IPv4(ip[0], ip[1], byte(i/250), byte(1+i%250)), Port: rp + i%50}
+					sendUDPWait(m, udpAddr(lh, lp), src, payloads[i%len(payloads)], 6*time.Second)
+				}(i)
+			}
+			bw.Wait()
+			res.Obs = append(res.Obs, scObs{Op: "udpburst", Done: true})
 		case "events":
 			if st.WaitMs > 0 {
 				time.Sleep(time.Duration(st.WaitMs) * time.Millisecond)
